@@ -19,6 +19,7 @@ typedef struct {
     int env[9]; int env_set[9];
     int poison_lu;          /* 1: L.Store/U.Store = NULL on entry (what an uninitialised caller has) */
     int repeat;
+    int delay;              /* 1: legal but unlucky thread timing through the observation hook (threads >= 2 start late, thread 1 is slow) */
     char seq[256];          /* C17: sequence of calls */
 } vcase_t;
 
@@ -45,6 +46,7 @@ static int read_case(FILE *in, vcase_t *c)
         else if (!strcmp(key, "FAIL")) sscanf(line, "%*s %ld", &c->fail_from);
         else if (!strcmp(key, "POISON")) sscanf(line, "%*s %d", &c->poison_lu);
         else if (!strcmp(key, "REPEAT")) sscanf(line, "%*s %d", &c->repeat);
+        else if (!strcmp(key, "DELAY")) sscanf(line, "%*s %d", &c->delay);
         else if (!strcmp(key, "SEQ")) sscanf(line, "%*s %255s", c->seq);
         else if (!strcmp(key, "ENV")) { int k, v; if (sscanf(line, "%*s %d %d", &k, &v) == 2 && k >= 1 && k <= 8) { c->env[k] = v; c->env_set[k] = 1; } }
         else if (!strcmp(key, "MAT")) {
